@@ -284,12 +284,20 @@ def step(acc, a, grid, W, act, history):
     return g
 
 
+SHALLOW = set()
+
+
 def initial_states(thorough):
     from curtsies.formatstringarray import FSArray, fsarray
 
     out = []
     shapes = [(r, c) for r in range(0, 3) for c in range(0, 4 if thorough else 3)]
     shapes += [(1, 4)] if thorough else [(0, 3), (1, 3)]
+    global SHALLOW
+    SHALLOW = set()
+    for r, c in ([(1, 5), (2, 4), (1, 8)] if thorough else [(1, 5)]):
+        shapes.append((r, c))
+        SHALLOW.add("FSArray(%d,%d" % (r, c))  # wide shapes (with and without constructor formatting): one level only
     for r, c in shapes:
         out.append(("FSArray(%d,%d)" % (r, c), lambda r=r, c=c: FSArray(r, c)))
         if c >= 2:
@@ -418,6 +426,10 @@ def run(ctx):
                     nxt[i] = nxt[i][:: max(1, len(nxt[i]) // 250)]
                     rep.extra["depth3_frontier_subsampled"] = 1
         frontier = nxt
+        names = [nm for nm, _ in initial_states(ctx.thorough)]
+        for i in range(n):
+            if any(names[i].startswith(pre) for pre in SHALLOW):
+                frontier[i] = []
     acc = Acc(seed=ctx.seed)
     check_fsarray_ctor(acc)
     rep.merge(acc, "fsarray_constructor")
